@@ -40,6 +40,8 @@ PROPS = {
  "CompositeEnvelope.combine accepts both members": "C02,C03,C13,C17",
  "Envelope.measure/reorder identify their members": "C18,C17,C05",
  "Envelope.resize_fock fixes the tensor order": "C10",
+ "CompositeEnvelope.combine/resize_fock check membership by identity": "C17,C18",
+ "an Expression operation checks its operands": "C15,C03",
 }
 log = subprocess.run(["git", "-C", "/repo", "log", "--reverse", "--format=%h\t%s", "3d47238..HEAD"], capture_output=True, text=True).stdout
 fixed = []
